@@ -33,7 +33,13 @@ class C15(Check):
             "transmitted only if its uncompressed wire form is that of the transmitted record when compared after the "
             "channel was closed (and it must not have changed since it was received); envelopes of exactly 2^k-1, 2^k, "
             "2^k+1 octets (k = 9..15) and 65533, 65534, 65535 octets as the only / first / middle / last / every envelope, "
-            "made of one large or of many records, with and without TSIG, read in chunks around those lengths. A case is the "
+            "made of one large or of many records, with and without TSIG, read in chunks around those lengths; sequences of "
+            "transfers in one process while the TSIG configuration changes (same key name with another secret, other key "
+            "names, TSIG off and on, other algorithm; new Transfer values and one value): every pair and TSIG-on triple of "
+            "(receiver secret, sender secret), the long-used key name rolled over, random histories, incoming on the "
+            "scripted connection and outgoing through Transfer.Out in a dns.Server on an in-memory listener whose peer is "
+            "the harness's own RFC 8945 signer/verifier or Transfer.In; the query written by every Transfer.In is verified "
+            "with the configured secret. A case is the "
             "(kind, tsig, query, read list) tuple; "
             "non-trivial when at least two reads; distinct by hash of (function, arguments, output).")
     partial = [
